@@ -14,27 +14,35 @@ def countMismatch (t : Table) (conn : Nat) (withPat : Bool) (args : List Bytes) 
   let (_, ps) := subscribeSpec conn withPat args (absT t) []
   ps != (args.zipIdx.map fun (n, i) => Push.confirm conn (action withPat false) n (i + 1))
 
+/-- does the model of the handler panic on this command (it did on a pattern that does not compile while the code
+    used `glob.MustCompile`; since the repair — `glob.Compile` — it never does: `Props.C18.model_never_panics`) -/
+def modelPanics (t : Table) (conn : Nat) (cmd : List Bytes) : Bool :=
+  match (step t conn cmd).out with
+  | .panic => true
+  | _ => false
+
 /-- class of one command on the model's current table -/
 def cmdClass (t : Table) (conn : Nat) (cmd : List Bytes) : Option String :=
   match cmd with
   | [] => none
   | name :: args =>
     let n := toLower name
+    let panics := modelPanics t conn cmd
     if n == b "subscribe" || n == b "psubscribe" then
       let withPat := n == b "psubscribe"
       if args.isEmpty || conn == 0 then none
       else if args.any (fun a => t.any fun c => c.name == a && c.pat != withPat) then some "subscribe-name-collision-joins-other-kind"
-      else if withPat && args.any (fun a => !compiles a) then some "malformed-pattern-panics"
+      else if withPat && args.any (fun a => !compiles a) then (if panics then some "malformed-pattern-panics" else none)
       else if countMismatch t conn withPat args then some "subscribe-count-is-argument-position"
       else none
     else if n == b "unsubscribe" || n == b "punsubscribe" then
       let withPat := n == b "punsubscribe"
       if args.any (fun a => t.any fun c => c.name == a && c.pat != withPat && c.subs.contains conn) then some "unsubscribe-ignores-subscription-kind"
-      else if withPat && args.any (fun a => !compiles a) then some "malformed-pattern-panics"
+      else if withPat && args.any (fun a => !compiles a) && panics then some "malformed-pattern-panics"
       else if withPat && args.any (fun p => t.any fun c => c.subs.contains conn && !args.contains c.name && gmatch p c.name) then
         some "punsubscribe-drops-matching-subscriptions"
       else
-        let k := (unsubscribe conn withPat args t).2.1.length
+        let k := (unsubscribe conn withPat args t).2.length
         if k ≥ 1 && countOf (absT t) conn != k + 1 then some "unsubscribe-count-is-ordinal" else none
     else if n == b "publish" then
       match args with
@@ -50,7 +58,7 @@ def cmdClass (t : Table) (conn : Nat) (cmd : List Bytes) : Option String :=
         let s := toLower sub
         if s == b "channels" then
           match rest with
-          | [p] => if !p.isEmpty && !compiles p then some "malformed-pattern-panics"
+          | [p] => if !p.isEmpty && !compiles p then (if panics then some "malformed-pattern-panics" else none)
                    else if !p.isEmpty && t.any (fun e => e.active && gmatch p e.name != gideal p e.name) then some "lone-wildcard-pattern-matches-empty-name"
                    else none
           | _ => none
